@@ -5,6 +5,7 @@ package mon
 
 import (
 	"errors"
+	"fmt"
 	"io"
 
 	"verif/harness/rt"
@@ -12,6 +13,14 @@ import (
 
 // ErrInjected is the sentinel error of injected faults.
 var ErrInjected = errors.New("injected I/O fault")
+
+// Faults whose error values wrap the standard end-of-input errors without
+// being them: a reader that fails with such an error has failed, it has not
+// reached the end of its input (io.EOF is compared by identity).
+var (
+	ErrInjectedWrapsEOF           = fmt.Errorf("injected I/O fault (short block: %w)", io.EOF)
+	ErrInjectedWrapsUnexpectedEOF = fmt.Errorf("injected I/O fault (connection lost: %w)", io.ErrUnexpectedEOF)
+)
 
 // ReadEvent is one Read call as seen at the boundary.
 type ReadEvent struct {
@@ -30,7 +39,7 @@ type PlanReader struct {
 	// Boundaries are absolute offsets that no single read crosses
 	Boundaries []int
 	Events     []ReadEvent
-	KeepEvents  bool
+	KeepEvents bool
 
 	off   int
 	calls int
@@ -130,6 +139,7 @@ type FaultReader struct {
 	K         int
 	WithData  bool
 	OneShot   bool
+	Err       error // the error to fail with (ErrInjected when nil)
 	Chunks    []int
 	Delivered bool // the fault was actually returned to the caller
 	off       int
@@ -152,7 +162,7 @@ func (r *FaultReader) Read(p []byte) (int, error) {
 			rt.Progress.Add(1)
 		}
 		r.Delivered = true
-		return 0, ErrInjected
+		return 0, r.fault()
 	}
 	rt.Progress.Add(1)
 	n := len(p)
@@ -169,9 +179,16 @@ func (r *FaultReader) Read(p []byte) (int, error) {
 	r.off += n
 	if r.WithData && !r.OneShot && r.off == r.K {
 		r.Delivered = true
-		return n, ErrInjected
+		return n, r.fault()
 	}
 	return n, nil
+}
+
+func (r *FaultReader) fault() error {
+	if r.Err != nil {
+		return r.Err
+	}
+	return ErrInjected
 }
 
 // FaultWriter fails the FailCall-th Write call (0-based; -1 = never), or
